@@ -25,6 +25,9 @@ type HostileScenario struct {
 	TruncEnum   bool   `json:"trunc_enum,omitempty"`
 	TruncStride int    `json:"trunc_stride,omitempty"`
 	Origin      string `json:"origin,omitempty"` // how the input was made (informational)
+	// RewindAt > 0 (seekable readers): Rewind is called once before that call; everything C03
+	// promises must hold for the calls that follow as well (the bound on calls starts again)
+	RewindAt int `json:"rewind_at,omitempty"`
 }
 
 type hostile struct{}
@@ -42,7 +45,7 @@ func (hostile) Runs(tier string) int64 {
 
 func (hostile) Meta() core.EngineMeta {
 	return core.EngineMeta{
-		Rule:        "Inputs: (a) random bytes with sync bytes planted at multiples of the packet size, at random places or nowhere, empty, one byte, shorter than the 193-byte detection window; (b) reference streams whose descriptors carry the 23 typed tags with arbitrary bodies of arbitrary length inside intact sections, and reference streams mutated at seeded positions and at targeted fields (section_length, adaptation_field_length, PES_packet_length and header_data_length, pointer_field, descriptor and loop lengths set to 0 / 0xFF / maximum), re-framed to 188+k; (c) structured streams truncated at a stride of offsets. Configurations: packet size in {auto, 188, 192, 204, 189, 300}, reader in {seekable, bufio, plain} with seeded chunk plans, API in {NextPacket, NextData, alternating}, with and without skipper / observing parser. Invariants per run: no panic; every call returning an error other than ErrNoMorePackets consumed input (non-bufio readers); ErrNoMorePackets within len(input)+16 calls and again on each of the next 8 calls; explicit size: the results for in[:k] equal those for in[:k - k mod size]. A run that exceeds the 20 s supervisor is a violation of class hang. distinct = (origin class, size option, reader kind, API, callbacks, result-shape class: counts of data/errors bucketed); non-trivial = the input is non-empty and at least one call returned an error or data. Reader kinds: seekable, bufio.Reader, plain, and a reader that can Peek without being a *bufio.Reader (bufio.ReadWriter).",
+		Rule:        "Inputs: (a) random bytes with sync bytes planted at multiples of the packet size, at random places or nowhere, empty, one byte, shorter than the 193-byte detection window; (b) reference streams whose descriptors carry the 23 typed tags with arbitrary bodies of arbitrary length inside intact sections, and reference streams mutated at seeded positions and at targeted fields (section_length, adaptation_field_length, PES_packet_length and header_data_length, pointer_field, descriptor and loop lengths set to 0 / 0xFF / maximum), re-framed to 188+k; (c) structured streams truncated at a stride of offsets. Configurations: packet size in {auto, 188, 192, 204, 189, 300}, reader in {seekable, bufio, plain} with seeded chunk plans, API in {NextPacket, NextData, alternating}, with and without skipper / observing parser. Invariants per run: no panic; every call returning an error other than ErrNoMorePackets consumed input (non-bufio readers); ErrNoMorePackets within len(input)+16 calls and again on each of the next 8 calls; explicit size: the results for in[:k] equal those for in[:k - k mod size]. A run that exceeds the 20 s supervisor is a violation of class hang. distinct = (origin class, size option, reader kind, API, callbacks, result-shape class: counts of data/errors bucketed); non-trivial = the input is non-empty and at least one call returned an error or data. Reader kinds: seekable, bufio.Reader, plain, and a reader that can Peek without being a *bufio.Reader (bufio.ReadWriter). With a seekable reader one run in five calls Rewind once in the middle; everything must hold for the calls that follow.",
 		Real:        []string{"astits.Demuxer and everything below it", "bufio.Reader"},
 		Stub:        []string{"SimReader", "refts reference multiplexer (structured inputs)", "mutation operators", "per-run supervisor (hang detection)"},
 		FaultKinds:  []string{"random-bytes", "mutated-stream", "targeted-length-field", "truncated-stream", "empty-or-tiny", "auto-detect", "size>188", "bufio", "plain", "bufio-rw", "skipper", "parser"},
@@ -165,6 +168,9 @@ func (hostile) Generate(r *core.PRNG, tier string, idx int64) any {
 	sc.API = []string{"packet", "data", "data", "mixed"}[r.Intn(4)]
 	sc.Skipper = r.Chance(1, 6)
 	sc.Parser = r.Chance(1, 6)
+	if sc.Reader.Kind == "seekable" && r.Chance(1, 5) {
+		sc.RewindAt = r.Range(1, 30)
+	}
 	return sc
 }
 
@@ -213,6 +219,15 @@ func hostileOnce(input []byte, sc *HostileScenario, log *core.Log) hostileRun {
 		return "", err, false
 	}
 	for i := 0; i < bound; i++ {
+		if sc.RewindAt > 0 && i == sc.RewindAt && sc.Reader.Kind == "seekable" && len(input) == len(sc.Input) {
+			if _, rerr := dmx.Rewind(); rerr == nil {
+				bound += i + len(input) + 16
+				if sc.API == "mixed" {
+					bound += len(input) + 16
+				}
+				log.Add("demux", "rewind")
+			}
+		}
 		pos0, pulled0 := sr.Pos(), sr.Pulled
 		k, err, isData := next(i)
 		hr.calls++
